@@ -14,7 +14,7 @@ RULE = ("Same episode generator as C07 (delay d in 0..3, latency {0,5,30}s, extr
         "from the exchange). Non-trivial = delay >= 1 or latency > 0, with >= 3 decisions.")
 ASSUMPTIONS = ["bar-shaped streams; latency below the minimum timestep gap"]
 REQUIRED = ["C08:fifo-delay", "C08:latency-pricing", "C08:execution-after-latent-quotes"]
-REQUIRED_CATS = ["action-buffer-kind:list", "action-buffer-kind:series", "decision-refused-then-resubmitted", "action-buffer-reused-in-place", "fold-starts-at-latent-only-timestep", "events-added-after-environment-built", "rebuilt-with-other-latency", "repeated-episode", "C08:null-executed", "C08:delayed-executed", "discrete", "box", "delay:0", "delay:1", "delay:2", "delay:3",
+REQUIRED_CATS = ["discrete-space-counted-from-nonzero-start", "action-buffer-kind:list", "action-buffer-kind:series", "decision-refused-then-resubmitted", "action-buffer-reused-in-place", "fold-starts-at-latent-only-timestep", "events-added-after-environment-built", "rebuilt-with-other-latency", "repeated-episode", "C08:null-executed", "C08:delayed-executed", "discrete", "box", "delay:0", "delay:1", "delay:2", "delay:3",
                  "latency:5", "latency:30", "latency:0.2", "latency:0.7"]
 REQUIRED_HITS = ["Broker.rebalance"]
 TECHNIQUE = "runtime monitoring: executed allocations and trade prices compared with a FIFO model of the submitted action sequence (refused and delayed-refused decisions included) and with the input quote stream"
